@@ -30,10 +30,10 @@ impl Header {
   }
 
   pub fn get_title(&self) -> String {
-    unsafe {
-      let title = std::str::from_utf8_unchecked(&self.title);
-      String::from(title.trim_end_matches(std::char::from_u32_unchecked(0)))
-    }
+    // The title is NUL-padded and not necessarily valid UTF-8
+    let title = self.title;
+    let length = title.iter().rposition(|byte| *byte != 0).map_or(0, |index| index + 1);
+    String::from_utf8_lossy(&title[..length]).into_owned()
   }
 
   pub fn get_cart_type(&self) -> MBCType {
